@@ -17,17 +17,27 @@ def build(P):
     P.verify(T.ED + "EventDispatcher.dispatch", T.dispatch_contract(), tags=("C19",))
     P.verify(D.ET + "asl_service_rpcmessage", D.rpcmessage_contract(), tags=("C19",), timeout=30)
     P.verify(D.ET + "asl_service_states_startExecution", D.start_execution_launch_contract(), tags=("C19",), timeout=30)
+    for w in ("asyncio", "blocking"):
+        c = T.message_ack_contract(w)
+        P.verify(c.key, c, tags=("C19",), timeout=30, label="Message.acknowledge.ack[%s]" % w, obl_prefix=w + ".Message.ack")
     from contracts import api as A
     for w in ("asyncio", "blocking"):
         c = A.start_execution_api(w)
         P.verify(c.key, c, tags=("C19",), timeout=30, label="StartExecution[%s]" % w, obl_prefix=w + ".StartExecution")
     c = A.start_execution_api("asyncio", sync=True)
     P.verify(c.key, c, tags=("C19",), timeout=30, obl_prefix="asyncio.StartSyncExecution")
+    P.native("address-strings", "natives.c19:addresses", kind="bounded", clause="C19:",
+             bound="Destination.parse_address of both transports on about 430 address strings (the engine's own shared / instance / reply "
+                   "queue addresses, classic and quorum; the documented examples; a product of 20 node x 5 link option shapes x 3 heads): "
+                   "declare / bindings / link settings / name / subject compared with a reference reading of the address grammar, and "
+                   "between the transports")
     P.explanation = ("Producer.send in both transports: routing key = subject, body / exchange / mandatory / headers / correlation "
                      "id / reply-to / message id passed through, expiration None or the decimal string of a non-negative integer; "
                      "EventDispatcher.publish: shared queue iff asked, instance queue otherwise, fresh message id; acknowledge: that "
-                     "delivery and no other, at most once; dispatch: poison is acknowledged with multiple=False; task requests carry "
+                     "delivery and no other, at most once (Message.acknowledge's ack in both transports: this message's delivery tag "
+                     "with multiple unset; a returned message, tag 0, acknowledges nothing); dispatch: poison is acknowledged with multiple=False; task requests carry "
                      "this instance's reply queue, the event id as correlation id and the timeout as expiration; only asynchronous "
                      "child launches use the shared queue.")
-    P.not_decided = ["queue / exchange declarations from the address strings (Destination.parse_address, Consumer.open) not under contract",
+    P.not_decided = ["queue / exchange declarations from the address strings: Destination.parse_address is checked by the bounded stand-in only "
+                     "(its dict.update / json.loads obligations time out in all solvers), Consumer.open / Producer.open not under contract",
                      "affinity under competing consumers, exclusivity, frames on the wire (broker, A3)"]
